@@ -225,6 +225,68 @@ fn count_v6_exts(e: &Ipv6Extensions) -> usize {
         + e.auth.is_some() as usize
 }
 
+/// The enum wrappers of the struct results offer a second door to each header (`udp()`, `mut_tcp()`,
+/// `ipv4_ref()`, `is_arp()`, `header_len()` ...): documented to return the header exactly when the enum
+/// holds that variant, and its serialised length. Returns the first disagreement.
+fn helper_views(link: &Option<LinkHeader>, exts: &[LinkExtHeader], net: &Option<NetHeaders>, tr: &Option<TransportHeader>) -> Option<String> {
+    if let Some(l) = link {
+        let mut m = l.clone();
+        let (e, s) = (l.clone().ethernet2(), l.clone().linux_sll());
+        let (me, ms) = (m.mut_ethernet2().map(|x| x.clone()), m.mut_linux_sll().map(|x| x.clone()));
+        let mut w = vec![];
+        let _ = l.write(&mut w);
+        let ok = match l {
+            LinkHeader::Ethernet2(h) => e.as_ref() == Some(h) && me.as_ref() == Some(h) && s.is_none() && ms.is_none() && l.header_len() == 14,
+            LinkHeader::LinuxSll(h) => s.as_ref() == Some(h) && ms.as_ref() == Some(h) && e.is_none() && me.is_none() && l.header_len() == 16,
+        };
+        if !ok || w.len() != l.header_len() {
+            return Some(format!("LinkHeader helpers disagree with {:?}: ethernet2={:?} linux_sll={:?} header_len={} written={}", l, e, s, l.header_len(), w.len()));
+        }
+    }
+    for e in exts {
+        let want = match e {
+            LinkExtHeader::Vlan(_) => 4,
+            LinkExtHeader::Macsec(m) => m.to_bytes().len(),
+        };
+        if e.header_len() != want {
+            return Some(format!("LinkExtHeader::header_len {} but the header serialises to {} bytes: {:?}", e.header_len(), want, e));
+        }
+    }
+    if let Some(n) = net {
+        let (v4, v6, arp) = (n.ipv4_ref().is_some(), n.ipv6_ref().is_some(), n.arp_ref().is_some());
+        let (want, len) = match n {
+            NetHeaders::Ipv4(h, x) => ((true, false, false), h.header_len() + x.header_len()),
+            NetHeaders::Ipv6(h, x) => ((false, true, false), h.header_len() + x.header_len()),
+            NetHeaders::Arp(a) => ((false, false, true), a.packet_len()),
+        };
+        let same_refs = match n {
+            NetHeaders::Ipv4(h, x) => n.ipv4_ref() == Some((h, x)),
+            NetHeaders::Ipv6(h, x) => n.ipv6_ref() == Some((h, x)),
+            NetHeaders::Arp(a) => n.arp_ref() == Some(a),
+        };
+        if (v4, v6, arp) != want || (n.is_ipv4(), n.is_ipv6(), n.is_arp()) != want || n.is_ip() != (want.0 || want.1) || !same_refs || n.header_len() != len {
+            return Some(format!("NetHeaders helpers disagree with the variant: refs {:?} is_* {:?} is_ip {} header_len {} (parts {}) for {:?}", (v4, v6, arp), (n.is_ipv4(), n.is_ipv6(), n.is_arp()), n.is_ip(), n.header_len(), len, n));
+        }
+    }
+    if let Some(t) = tr {
+        let mut m = t.clone();
+        let by_val = (t.clone().udp().is_some(), t.clone().tcp().is_some(), t.clone().icmpv4().is_some(), t.clone().icmpv6().is_some());
+        let by_mut = (m.mut_udp().is_some(), m.mut_tcp().is_some(), m.mut_icmpv4().is_some(), m.mut_icmpv6().is_some());
+        let mut w = vec![];
+        let _ = t.write(&mut w);
+        let (want, same) = match t {
+            TransportHeader::Udp(h) => ((true, false, false, false), t.clone().udp().as_ref() == Some(h) && m.mut_udp().map(|x| &*x) == Some(h)),
+            TransportHeader::Tcp(h) => ((false, true, false, false), t.clone().tcp().as_ref() == Some(h) && m.mut_tcp().map(|x| &*x) == Some(h)),
+            TransportHeader::Icmpv4(h) => ((false, false, true, false), t.clone().icmpv4().as_ref() == Some(h) && m.mut_icmpv4().map(|x| &*x) == Some(h)),
+            TransportHeader::Icmpv6(h) => ((false, false, false, true), t.clone().icmpv6().as_ref() == Some(h) && m.mut_icmpv6().map(|x| &*x) == Some(h)),
+        };
+        if by_val != want || by_mut != want || !same || w.len() != t.header_len() {
+            return Some(format!("TransportHeader helpers disagree with the variant: by value {:?}, by mut {:?}, same header {}, header_len {} written {} for {:?}", by_val, by_mut, same, t.header_len(), w.len(), t));
+        }
+    }
+    None
+}
+
 fn strict_check(start: Start, b: &[u8], r: &RefOut, ctx: &mut Ctx) -> Result<(), Failure> {
     let Some((entry, h)) = strict_pair(start, b) else { return Ok(()) };
     let s = slice_strict(start, b);
@@ -232,6 +294,11 @@ fn strict_check(start: Start, b: &[u8], r: &RefOut, ctx: &mut Ctx) -> Result<(),
     let input = || input_json(start, b);
     let stop = struct_stop_index(r);
     let mut diffs: Vec<Diff> = vec![];
+    if let Ok(p) = &h {
+        if let Some(d) = helper_views(&p.link, &p.link_exts, &p.net, &p.transport) {
+            diffs.push(Diff { what: "helper-view".into(), detail: d });
+        }
+    }
     if let Some(stop) = stop {
         ctx.class("struct-exception");
         // documented exception: struct decoding ends at the header that does not fit
@@ -358,6 +425,11 @@ fn lax_check(start: Start, b: &[u8], rl: &RefOut, ctx: &mut Ctx) -> Result<(), F
     ctx.eval(1);
     let input = || input_json(start, b);
     let mut diffs: Vec<Diff> = vec![];
+    if let Some(p) = &h {
+        if let Some(d) = helper_views(&p.link, &p.link_exts, &p.net, &p.transport) {
+            diffs.push(Diff { what: "helper-view".into(), detail: d });
+        }
+    }
     if struct_stop_index(rl).is_some() {
         // exception: checked in strict mode against the reference; here only the lax flavour of "ends at
         // that header": no transport, no stop error caused by anything behind it
@@ -467,7 +539,7 @@ impl Property for C04 {
         crate::props::c03::C03.describe(tape)
     }
     fn rule(&self) -> String {
-        "case = tape -> packet grammar (as C03). Differential oracle: PacketHeaders::{from_ethernet_slice, from_ether_type, from_ip_slice} vs SlicedPacket::{from_ethernet, from_ether_type, from_ip}, and LaxPacketHeaders vs LaxSlicedPacket: same verdict; link, link_exts, net, transport equal to the slice result converted header by header (IPv6 extension chains folded from the slice *iterator* under the documented struct rules, not via Ipv6Extensions::from_slice); remaining payload of the same kind covering the same (offset,len); lax: same stop-error presence/layer and incomplete flag. The documented exception is computed from the reference decoding: when the chain contains a header whose struct slot is already taken, struct decoding must end exactly there (that header is the payload, no transport header, fragmented reflects only the headers in front) and may be Ok where slicing fails behind it. evaluations = compared pairs. Non-trivial = transport layer reached, or fault in the extension chain, or a length field differs from the true size, or the exception applies; distinct = (start, layer sequence, fault kind, mismatch count, exception?)."
+        "case = tape -> packet grammar (as C03). Differential oracle: PacketHeaders::{from_ethernet_slice, from_ether_type, from_ip_slice} vs SlicedPacket::{from_ethernet, from_ether_type, from_ip}, and LaxPacketHeaders vs LaxSlicedPacket: same verdict; link, link_exts, net, transport equal to the slice result converted header by header (IPv6 extension chains folded from the slice *iterator* under the documented struct rules, not via Ipv6Extensions::from_slice); remaining payload of the same kind covering the same (offset,len); lax: same stop-error presence/layer and incomplete flag. Every struct result is also read through the second door of its enum wrappers (LinkHeader/NetHeaders/TransportHeader/LinkExtHeader: by-value, by-mut and by-ref helper accessors, is_*, header_len, write): they must hand out exactly the header of the variant held and its serialised length. The documented exception is computed from the reference decoding: when the chain contains a header whose struct slot is already taken, struct decoding must end exactly there (that header is the payload, no transport header, fragmented reflects only the headers in front) and may be Ok where slicing fails behind it. evaluations = compared pairs. Non-trivial = transport layer reached, or fault in the extension chain, or a length field differs from the true size, or the exception applies; distinct = (start, layer sequence, fault kind, mismatch count, exception?)."
             .into()
     }
     fn assumptions(&self) -> Vec<String> {
